@@ -135,15 +135,35 @@ def interp_of(K, u, wts, m, dim, dx, comp, i):
 @unit("virtual_boundary_methods", props=("C10",), kernels=True,
       configs=[dict(dim=d, method=mth, reset=r) for d in (2, 3)
                for mth, r in (("lag_only", False), ("lag_only_after_another_evaluation", False), ("eul_and_lag", False),
-                              ("eul_and_lag_reset", True), ("time_step", False))],
+                              ("eul_and_lag_reset", True), ("time_step", False),
+                              ("time_step_after_time_step", False), ("time_step_after_evaluation", False))],
       assumes=("M8: a property of every reachable state follows by induction over the call sequence from the constructor "
                "postcondition and the method contracts (each proved from an ARBITRARY state satisfying the invariant)",))
 def virtual_boundary_methods(K, dim, method, reset):
     native = set_mode(K)
     n_mark = 2
     shape, dx, k, c, vbf, I, Vm, t = setup_vbf(K, dim, n_mark, reset)
-    if method == "time_step":
+    if method.startswith("time_step"):
         dt = K.real("dt")  # arbitrary, not even assumed positive
+        if method == "time_step_after_time_step":
+            # call history: an earlier step with no evaluation in between (sub-stepping the forcing) -- the
+            # integral advances over EVERY dt passed, with the last evaluated mismatch
+            dt0 = K.real("dt_previous")
+            vbf.time_step(dt0)
+            for idx in np.ndindex(dim, n_mark):
+                K.ensures_eq(f"previous_step_advanced_the_integral{list(idx)}",
+                             vbf.lag_grid_position_mismatch_field[idx], I[idx] + dt0 * Vm[idx])
+            I = I + dt0 * Vm
+            t = t + dt0
+        elif method == "time_step_after_evaluation":
+            # call history: an evaluation directly before (the usual alternation): the step integrates the
+            # mismatch that evaluation left, from the integral it left untouched
+            m_, s_, X_, V_ = marker_inputs(K, dim, n_mark, shape, dx)
+            u_ = K.field("eul_grid_velocity_field", (dim,) + shape)
+            vbf.compute_interaction_force_on_lag_grid(u_, X_, V_)
+            Vm = vbf.lag_grid_velocity_mismatch_field.copy()
+            for idx in np.ndindex(dim, n_mark):
+                K.ensures_eq(f"evaluation_left_the_integral{list(idx)}", vbf.lag_grid_position_mismatch_field[idx], I[idx])
         forcing_before = vbf.lag_grid_forcing_field.copy()
         vbf.time_step(dt)
         for idx in np.ndindex(dim, n_mark):
